@@ -65,8 +65,14 @@ func (f *Filter) IsAllowed(res Resource) bool {
 		// typ string
 	)
 
-	if _, ok := res.Attrs()[f.Field]; ok {
+	if attr, ok := res.Attrs()[f.Field]; ok {
 		val = res.Get(f.Field)
+
+		// Some resources (like Wrapper) return a nil interface
+		// instead of a nil pointer for a nullable attribute.
+		if val == nil && attr.Nullable {
+			val = GetZeroValue(attr.Type, attr.Nullable)
+		}
 	}
 
 	if rel, ok := res.Rels()[f.Field]; ok {
